@@ -198,16 +198,23 @@ func VerifShardedDir() {
 	es, tab := makeEntries(k, lg, maxDepth, verifrt.Param("small", 1) == 1)
 	// a non-member probe
 	probe := &hEntry{hash: verifrt.Bytes(8)}
+	// unrelated, or related to an entry's name as proper suffix / proper prefix /
+	// extension (its hash is arbitrary, so it may be routed to that entry's bucket)
+	variant := verifrt.Choose(4)
 	if verifrt.Native() {
-		probe.name = verifmodel.FindName(99, probe.hash, maxDepth*lg)
+		if variant == 0 {
+			probe.name = verifmodel.FindName(99, probe.hash, maxDepth*lg)
+		} else {
+			es[0].name, probe.name = verifmodel.FindRelatedNames(0, es[0].hash, probe.hash, maxDepth*lg, variant)
+		}
 	} else {
-		// unrelated, or related to an entry's name as proper suffix / extension (its
-		// hash is arbitrary, so it may be routed to that entry's bucket)
-		switch verifrt.Choose(3) {
+		switch variant {
 		case 0:
 			probe.name = "zz"
 		case 1:
 			probe.name = es[0].name[1:]
+		case 2:
+			probe.name = es[0].name[:len(es[0].name)-1]
 		default:
 			probe.name = es[0].name + "q"
 		}
